@@ -814,7 +814,8 @@ class BosonicModes:
                 raise ValueError("Cannot apply measurement, mode does not exist")
 
             Idmat = self.hbar * np.eye(2) / 2
-            vacuum_fidelity = np.abs(self.fidelity_vacuum(modes))
+            # a probability: rounding can leave the fidelity of a vacuum mode at 1 + 1e-13
+            vacuum_fidelity = min(np.abs(self.fidelity_vacuum(modes)), 1.0)
             measurement = np.random.choice((0, 1), p=[vacuum_fidelity, 1 - vacuum_fidelity])
             samples = measurement
 
